@@ -211,6 +211,20 @@ def run(ctx: Ctx):
     tns = ast.unparse(ns.node)
     # arc table: a faithful copy of the input, artificial arcs mirrored by the sign of the supply
     ctx.ob("C09-O7", "R17 PARAM-IMMUTABLE", ns, "arc arrays are sized for the original and the artificial arcs and copy (tail, head, capacity, cost) of every input arc", all(f"{a} = [{z}] * (m + n)" in tns for a, z in (("source", "0"), ("target", "0"), ("cap", "0"), ("cost", "0.0"), ("flow", "0"))) and "for i, (u, v, c, w) in enumerate(arcs):\n        source[i] = u\n        target[i] = v\n        cap[i] = c\n        cost[i] = w" in tns, "", node=ns.node)
+    # who writes the arc data: `cap`, `cost`, `source`, `target` get each cell once - the input arcs in the copy loop, the
+    # artificial arcs in the set-up loop - and are read-only afterwards (a presolve that rewrites capacities or costs
+    # solves another instance)
+    for arr in ("cap", "cost", "source", "target"):
+        ws = [n for n in own_nodes(ns.node) if isinstance(n, (ast.Assign, ast.AugAssign)) for t in (n.targets if isinstance(n, ast.Assign) else [n.target]) if isinstance(t, ast.Subscript) and isinstance(t.value, ast.Name) and t.value.id == arr]
+        idx = sorted({ast.unparse((n.targets[0] if isinstance(n, ast.Assign) else n.target).slice) for n in ws})
+        aug = [n for n in ws if isinstance(n, ast.AugAssign)]
+        copy_loops = [l for l in own_nodes(ns.node) if isinstance(l, ast.For) and "arcs" in names_in(l.iter)]
+        in_copy = {id(x) for l in copy_loops for x in ast.walk(l)}
+        copy_w = [n for n in ws if isinstance(n, ast.Assign) and ast.unparse(n.targets[0].slice) == "i" and id(n) in in_copy]
+        art_w = [n for n in ws if isinstance(n, ast.Assign) and ast.unparse(n.targets[0].slice) == "arc_id" and id(n) not in in_copy]
+        ok = not aug and len(copy_w) == 1 and isinstance(copy_w[0].value, ast.Name) and len(copy_w) + len(art_w) == len(ws) and len(art_w) in (1, 2)
+        badw = aug or [n for n in ws if n not in copy_w and n not in art_w] or copy_w[1:]
+        ctx.ob("C09-O7", "R27 WRITE-OWNERSHIP", ns, f"`{arr}[..]` is written once per arc: the input arcs by the copy loop, the artificial arcs by the set-up loop", ok, f"`{ast.unparse(badw[0])[:50]}`: the arc data the pivots run on is no longer the caller's (a capacity clamped to the largest single supply is below what a trunk arc shared by two suppliers has to carry: INFEASIBLE or a dearer flow)" if badw else f"writes indexed {idx}", node=badw[0] if badw else ns.node)
     art = [n for n in own_nodes(ns.node) if isinstance(n, ast.If) and ast.unparse(n.test) == "supplies[i] >= 0"]
     ok = len(art) == 1
     if ok:
@@ -422,7 +436,13 @@ def _v_budget_exit_falls_through(tree):
     M.replace_stmt(g, lambda s: isinstance(s, ast.If) and M.src_is(s.test, "not converged"), [])
 
 
+def _v_capacity_clamp_presolve(tree):
+    g = M.find_func(tree, "network_simplex")
+    M.insert(g, "big_m = ", "flow_bound = int(max(abs(s) for s in supplies))\nfor i in range(m):\n    if cap[i] > flow_bound:\n        cap[i] = flow_bound")
+
+
 VARIANTS = [
+    M.Variant("network_simplex clamps capacities to the largest single supply (seed C09-R)", NS, _v_capacity_clamp_presolve, "C09-O7"),
     M.Variant("network_simplex falls through to its verdicts when the pivot budget runs out (original defect)", NS, _v_budget_exit_falls_through, "C09-O3"),
     M.Variant("network_simplex keeps the last parallel arc only (original defect)", NS, _v_flowdict_comprehension, "C09-O5"),
     M.Variant("network_simplex cost includes artificial arcs", NS, _v_cost_includes_artificial, "C09-O3"),
